@@ -22,7 +22,8 @@ RULE = ("case = seeded (definition set, config, accepted input A); within a case
         "parses executed. distinct_nontrivial = distinct (definition-shape digest, fault kind, library function that issued "
         "the faulted call, outcome class) tuples where the fault actually fired inside a parse. About 1% of the cases are a "
         "structure around ONE long array (255..65537 elements, lengths at powers of two +-1; fixed, [2][n/2] or header-given "
-        "length): there cuts and short reads are SAMPLED at and around element boundaries instead of enumerated.")
+        "length): there cuts and short reads are SAMPLED at and around element boundaries instead of enumerated. A third of the "
+        "cuts is also handed over as bytes/bytearray/memoryview through T(x), T.reads(x), cs.read(name, x) (buffer entry points).")
 ASSUMPTIONS = [
     "A read that returns b'' or fewer bytes than requested is the stream's way of signalling end of data (Python file protocol).",
     "To-end-of-stream arrays ([EOF]) are exempt from the equality clause for eof/short/empty faults that land at or after the first "
@@ -126,6 +127,9 @@ def run_case(case, stats):
 
     big = case.get("big")
     obs = _fast_obs if big else _plain_obs
+    root_name = case["defs"]["structs"][-1]["name"]
+    # T(b"..") on a structure whose only field is a char (array) of exactly that length constructs instead of parsing
+    single_bytes_field = len(root.__fields__) == 1 and issubclass(root.__fields__[0].type, bytes)
     # accepted input
     if big:
         # long inputs are regenerated from the seed on every execution (they are not stored in the replay file)
@@ -305,6 +309,18 @@ def run_case(case, stats):
             elif kinds == ["eof"] and out[1] != "EOFError":
                 raise Violation("error_kind", "truncation_not_EOFError:" + out[1],
                                 f"cut at {plan[0]['k']} of {len(A)} raised {out[1]}({out[2]})", plan=plan)
+        # ---- the buffer entry points: the same truncated data handed over as bytes / bytearray / memoryview through
+        # T(x), T.reads(x) and cs.read(name, x) must end like the truncated stream did (same value or the same error class)
+        if kinds == ["eof"] and not single_bytes_field and stats.c["evaluations"] % 3 == 1:
+            cut = A[: plan[0]["k"]]
+            form = stats.c["evaluations"] // 3 % 5
+            arg = (cut, cut, bytearray(cut), memoryview(cut), cut)[form]
+            fn = (root, root.reads, root, root.reads, lambda x: cs.read(root_name, x))[form]
+            o2 = _outcome(fn, arg, obs)
+            stats.count("probe.truncated_buffer_entry_point")
+            if (o2[0], o2[1]) != (out[0], out[1]):
+                raise Violation("never_fabricates", "buffer_entry_point_differs_from_stream",
+                                f"plan={plan}: truncated data as {type(arg).__name__} via form #{form} gives {o2[:2]}, the truncated stream gave {out[:2]}", plan=plan)
         # ---- clause 4: no residue - also on the SAME stream object: the faults of the plan are spent, a parse from the
         # start of that very stream must now give the complete value (plans with a cut keep their cut, so they are skipped)
         if "eof" not in kinds and stats.c["evaluations"] % 3 == 0:
